@@ -3,6 +3,8 @@ CONSTANTS
   MinN = 0
   MaxN = 5
   TwinMaxN = 4
+  RetMaxN = 4
+  TruthTest = "truthy"
 CONSTRAINT Export
 INVARIANT ImplRefinesReq
 INVARIANT ImplCallsDistinct
